@@ -21,7 +21,7 @@ pub fn check(tier: Tier) -> Check {
         also_rel: false,
         property: "C12",
         level: "exploration",
-        rule: "all request kinds (publish QoS 0/1/2 with payload 0..max, 112..128 and 16368..16384 bytes - packet lengths on both sides of the one-/two-/three-byte remaining-length steps - and topic 1..3 bytes, subscribe / unsubscribe with 1-2 filters and 0-1 user property, ping, disconnect with / without reason string) x M in {L-1, L, L+1, 1, 2^32-1, absent} x Receive Maximum in {1, absent} x CONNACK {bare, carrying six other properties around them} x connection flavour {bare, every CONNECT option set incl. the client's own Maximum Packet Size 16 and Session Present = 1, a CONNACK received through authorize()}, L computed by the reference encoder; issued on an idle client, with a ping, a subscribe and an unsubscribe of other callers outstanding (their acknowledgements must still reach them), and with another caller's QoS 1 publish unacknowledged (its send-quota slot is neither taken nor given back by a refused request: with Receive Maximum 1 the next QoS 1 publish is refused for the quota until the PUBACK arrives); followed by a QoS 1 publish, its PUBACK, an accepted subscribe, and an inbound PUBLISH naming the rejected subscription's would-be identifier; (C12/reconnect) one Context connected twice (end-of-stream, set_up on a fresh transport, connect, run): first CONNACK with M1, second with M2, each in {absent, 16, 45, 46, 47, 200}, requests of 46 bytes and of other sizes on both connections - the limit in force is the current connection's; (C12/early) a request (publish QoS 0/1/2, unsubscribe, ping, disconnect) made before connect(), or between two connections whose CONNACKs state opposite limits, M in {L-1, L, absent}: it is measured against the limit of the connection that carries it; the length L of a SUBSCRIBE depends on the subscription identifier the library will choose, so L is learned from a probe execution of the same history without M (identifier allocation is deterministic in the history) instead of assuming the identifiers count up from 1; non-trivial = a request was refused for size".into(),
+        rule: "all request kinds (publish QoS 0/1/2 with payload 0..max, 112..128 and 16368..16384 bytes - packet lengths on both sides of the one-/two-/three-byte remaining-length steps - and topic 1..3 bytes, subscribe / unsubscribe with 1-2 filters and 0-1 user property, ping, disconnect with / without reason string) x M in {L-1, L, L+1, 1, 2^32-1, absent} x Receive Maximum in {1, absent} x CONNACK {bare, carrying six other properties around them} x connection flavour {bare, every CONNECT option set incl. the client's own Maximum Packet Size 16 and Session Present = 1, a CONNACK received through authorize()}, L computed by the reference encoder; issued on an idle client, with a ping, a subscribe and an unsubscribe of other callers outstanding (their acknowledgements must still reach them), and with another caller's QoS 1 publish unacknowledged (its send-quota slot is neither taken nor given back by a refused request: with Receive Maximum 1 the next QoS 1 publish is refused for the quota until the PUBACK arrives); followed by a QoS 1 publish, its PUBACK, an accepted subscribe, and an inbound PUBLISH naming the rejected subscription's would-be identifier; (C12/reconnect) one Context connected twice (end-of-stream, set_up on a fresh transport, connect, run): first CONNACK with M1, second with M2, each in {absent, 16, 45, 46, 47, 200}, requests of 46 bytes and of other sizes on both connections - the limit in force is the current connection's; (C12/early) a request (publish QoS 0/1/2, unsubscribe, ping, disconnect) made before connect(), or between two connections whose CONNACKs state opposite limits, M in {L-1, L, absent}: it is measured against the limit of the connection that carries it; the length L of a SUBSCRIBE depends on the subscription identifier the library will choose, so L is learned from a probe execution of the same history without M (identifier allocation is deterministic in the history) instead of assuming the identifiers count up from 1; with another caller's QoS 1 publish holding the only quota slot; on a connection re-authenticated after its CONNACK (flavour 10); (C12/giant) the largest packet there is, 268 435 460 bytes, against M = 268 435 455 / 268 435 459 / 268 435 460 (thorough: seven limits, QoS 0 and 1), one execution at a time; non-trivial = a request was refused for size".into(),
         assumptions: vec![],
         parts,
     }
